@@ -345,7 +345,13 @@ where
                     }
                 }
             }
-            Err(e) => Err(PdfError::Shared { source: e.clone()}),
+            Err(e) => {
+                // the key carries no type: the cached error may stem from a load as another type
+                match self.resolve(key).and_then(|p| T::from_primitive(p, self)) {
+                    Ok(obj) => Ok(RcRef::new(key, obj.into())),
+                    Err(_) => Err(PdfError::Shared { source: e.clone()}),
+                }
+            }
         }
     }
     fn options(&self) -> &ParseOptions {
